@@ -360,9 +360,9 @@ PROPS = {
         "race": True,
         "level": "exploration",
         "level_text": "Generated search under the Go race detector: for every generated tree (local or decoded) two identical errors are built; one, still "
-                      "untouched (so that a lazily filled cache would first be written concurrently), is shared by 16 goroutines released together, each running "
+                      "untouched (so that a lazily filled cache would first be written concurrently), is shared by 8 goroutines released together, each running "
                       "every read-only operation of the property (all verbs through fmt and Formattable, redactable and redacted renderings, encode+marshal, every "
-                      "accessor, safe details, report building, Is/IsAny against the sentinel pool, As for 19 targets, hint/detail collection), for 3 rounds; every "
+                      "accessor, safe details, report building, Is/IsAny against the sentinel pool, As for 21 targets, hint/detail collection), for 2 rounds; in half of the cases the outermost layer is drawn uniformly from the kinds whose observers derive their result from stored data on every call (tags, barriers, secondary errors, stacks, safe details, telemetry, issue links, Mark, domains); every "
                       "goroutine's result must equal the result of running alone on the twin error, and a final solo run on the shared error must as well. The "
                       "race detector (halt_on_error) turns any unsynchronised conflicting access that occurs into a failure, independent of the timing of the run. "
                       "Second part (history independence, sequential): a generated sequence of trees is handled by one process - the first tree is observed on a "
@@ -372,10 +372,10 @@ PROPS = {
                       "luck; the detector finds unsynchronised accesses that actually occur in the run, which covers lazy caches, memoisation and shared scratch buffers.",
         "technique": "property-based testing (rapid) under the Go race detector: concurrent-vs-solo result equality on a fresh shared error, many goroutines and rounds; "
                      "generated operation histories (observe A, observe others, observe A again) with an equality invariant",
-        "rule": "rapid-generated trees (boosted: barriers, tags, secondary errors, Mark, Join, safe details, stacks, domains), local or decoded; 16 goroutines x 3 "
+        "rule": "rapid-generated trees (boosted: barriers, tags, secondary errors, Mark, Join, safe details, stacks, domains), local or decoded; 8 goroutines x 2 "
                 "rounds per tree. Non-trivial = at least 3 spec nodes; for the history part = at least 2 other errors handled in between. Distinct = hash of the case JSON.",
         "assumptions": ["Go race detector semantics (happens-before based, reports races that occur)"],
-        "parts": [rapid("concurrent-readers", "TestProp", 160, 3200), rapid("history-independence", "TestHistory", 640, 12800)],
+        "parts": [rapid("concurrent-readers", "TestProp", 480, 9600), rapid("history-independence", "TestHistory", 640, 12800)],
         "timeout": {"quick": 900, "thorough": 7200},
     },
 }
